@@ -24,6 +24,9 @@ mod memory_accessor;
 mod test_runner;
 /// Miscellaneous utility methods
 mod utils;
+/// Hooks for the verification harness
+#[cfg(mos_verif)]
+mod verif_hooks;
 
 #[derive(argh::FromArgs, PartialEq, Eq, Debug)]
 /// mos - https://mos.datatra.sh
